@@ -726,9 +726,9 @@ class GenericPlainRegistry(Generic[QuantityT, UnitT], metaclass=RegistryMeta):
 
             name = prefix + unit_name
             if name in self._units and name not in self._prefixed_units:
-                # A unit of that very name is defined (e.g. 'milliarcsecond' next
-                # to 'arcsecond'): keep its definition.
-                return name
+                # A unit is defined under that very spelling (e.g. 'milliarcsecond'
+                # next to 'arcsecond'): keep its definition.
+                return self._units[name].name
 
             prefix_def = self._prefixes[prefix]
             # of this very reading (parsing the name again could find another one)
